@@ -12,6 +12,7 @@ func TestReplay(t *testing.T) {
 		"HarnessReverseAfterGone":        HarnessReverseAfterGone,
 		"HarnessReverseFromNotification": HarnessReverseFromNotification,
 		"HarnessReverseLoss":             HarnessReverseLoss,
+		"HarnessReverseNotifyAfterLoss":  HarnessReverseNotifyAfterLoss,
 		"HarnessReverseRouting":          HarnessReverseRouting,
 	})
 }
